@@ -69,7 +69,7 @@ Spec == Init /\ [][Next]_vars /\ WF_vars(Seed \/ Narrow \/ Output \/ IndentStep)
 
 \* the prefix is always a whitespace prefix of every non-blank line seen so far
 PrefixInv == pc = "narrow" => (\A x \in 1..Len(prefix) : IsWs(prefix[x])) /\ \A x \in 1..(k - 1) : NonBlank(ls[x]) => StartsWith(ls[x], prefix)
-EvD == [ev |-> "dedent", s |-> s, res |-> dres, status |-> "ok"]
+EvD == [ev |-> "dedent", s |-> s, res |-> dres, hk |-> << <<ByteLen(prefix)>> >>, status |-> "ok"]
 EvI == [ev |-> "indent", s |-> s, p |-> p, res |-> ires, status |-> "ok"]
 EvR == [ev |-> "c18", s |-> s, p |-> p, ind |-> ires, d1 |-> dres, d2 |-> DedentOp(dres), d3 |-> DedentOp(ires), status |-> "ok"]
 AllOk(cs) == \A x \in 1..Len(cs) : cs[x].ok \/ (PrintT(<<"FAILED", cs[x].p, cs[x].c, cs[x].r>>) /\ FALSE)
